@@ -428,7 +428,10 @@ pub fn plan<'a>(ctx: &'a Ctx, rng: &mut Rng, tier: Tier) -> Plan<'a> {
                 cases,
                 judge: Box::new(move |c, b| {
                     let mut f = judge::judge_sound(c, b);
-                    if let (Some(out), Some(ch)) = (b.ok(), c.tcs[0].chars().next()) {
+                    // the token comparison reads the output of ONE one-character test case; inputs of another shape (the
+                    // change-directed cases around the atoms of a source diff) are judged for soundness only
+                    let one_char = c.tcs.len() == 1 && c.tcs[0].chars().count() == 1;
+                    if let (true, Some(out), Some(ch)) = (one_char, b.ok(), c.tcs.first().and_then(|t| t.chars().next())) {
                         let tok = classes.token(c.cfg.bits & CLASS_MASK, ch);
                         let is_class = tok.len() == 2 && tok.starts_with('\\') && "dwsDWS".contains(&tok[1..]);
                         let out_is_class = out.len() == 4 && out.starts_with("^\\") && "dwsDWS".contains(&out[2..3]);
